@@ -628,6 +628,10 @@ def handle (j : Json) : E Json := do
     let dup := (tpls.map Prod.fst).eraseDups.length != tpls.length
     let out : Json := if dup then "tplerr" else ruleOutJson (M.applyTemplates tpls r)
     pure (Json.mkObj [("model", Json.mkObj [("outs", Json.arr #[out])])])
+  | "history_meta" =>
+    -- run on the implementation only (tens of thousands of rules); the model's answer is a theorem, not a computation:
+    -- `C12_history_independent` — on any well-formed engine, of any size, each outcome is that of a fresh engine
+    pure (Json.mkObj [("model", Json.mkObj [("consistent", Json.bool true)])])
   | "pathbytes" =>
     -- the expected text is the lossy decoding computed by Rust's std (trusted); a path resolves to it as a string
     let ps ← (← j.getObjVal? "paths").getArr?
